@@ -312,19 +312,20 @@ class SchemaGen(object):
 
         from ..ref import refcoerce
 
-        for t in self.s.types.values():
-            for f in t.input_fields:
-                if not f.has_default:
-                    continue
-                old = sys.getrecursionlimit()
-                sys.setrecursionlimit(max(old, 1000))
-                try:
+        changed = True
+        while changed:   # dropping a default can make a field required and invalidate other defaults
+            changed = False
+            for t in self.s.types.values():
+                for f in t.input_fields:
+                    if not f.has_default:
+                        continue
                     try:
-                        refcoerce.coerce_literal(self.s, f.type, f.default)
+                        ok = refcoerce.coerce_literal(self.s, f.type, f.default)[0] == "ok"
                     except RecursionError:
+                        ok = False
+                    if not ok:
                         f.default = UNSET
-                finally:
-                    sys.setrecursionlimit(old)
+                        changed = True
 
     def deprecation(self, p=0.15):
         if not self.chance(p):
